@@ -1,3 +1,4 @@
+import Noodles.Props.C09LazyAny
 import Noodles.Props.C09Header
 import Noodles.Vcf.Model
 import Noodles.Vcf.Lazy
